@@ -133,6 +133,14 @@ func MapOrder(scopeEntries ...string) Rule {
 				if seq[base] > 1 {
 					key = fmt.Sprintf("%s#%d", base, seq[base])
 				}
+				// (c) carried state: a message produced inside the loop must not depend on what earlier iterations of
+				// the same loop stored in a container that outlives one iteration (first-come bookkeeping: with three
+				// overlapping paths, which pairs are reported depends on which path was met first)
+				if carried, what := carriedState(ml, f); carried {
+					r.Bad(rule, key+":carried-state", p.Pos(ml.rng.Pos()), "inside this range over a map, whether a message is produced depends on a lookup in "+what+", which the same loop fills as it goes: with three or more interacting keys the set of messages depends on Go's random iteration order (paths /a/{x}, /a/{y}, /a/{z}: the overlaps reported vary among {x~y,x~z}, {x~y,y~z}, {x~z,y~z})")
+				} else {
+					r.OK(rule, key+":carried-state", p.Pos(ml.rng.Pos()), "no message depends on a container filled by earlier iterations of the same loop")
+				}
 				if len(exits) == 0 {
 					r.OK(rule, key, p.Pos(ml.rng.Pos()), "map range runs to exhaustion")
 					continue
@@ -594,4 +602,93 @@ func sortedPairs(p *core.Prog, r *core.Report, reach map[*ssa.Function]bool) {
 	}
 	r.Count("sorted_pair_idioms", n)
 	r.Floor("sorted_pair_idioms", 1)
+}
+
+// mapRoot follows nested lookups / loads to the container a map value was taken from.
+func mapRoot(v ssa.Value, d int) ssa.Value {
+	if d > 6 {
+		return v
+	}
+	switch x := v.(type) {
+	case *ssa.Lookup:
+		return mapRoot(x.X, d+1)
+	case *ssa.Extract:
+		if lk, ok := x.Tuple.(*ssa.Lookup); ok {
+			return mapRoot(lk.X, d+1)
+		}
+	case *ssa.Phi:
+		if len(x.Edges) > 0 {
+			return mapRoot(x.Edges[0], d+1)
+		}
+	}
+	return v
+}
+
+// carriedState: a message call in the loop body is control dependent on a lookup into a map that the same loop
+// body updates and that was created outside the body.
+func carriedState(ml mapLoop, f *ssa.Function) (bool, string) {
+	updated := map[ssa.Value]bool{}
+	for b := range ml.body {
+		for _, ins := range b.Instrs {
+			if mu, ok := ins.(*ssa.MapUpdate); ok {
+				root := mapRoot(mu.Map, 0)
+				if ri, isInstr := root.(ssa.Instruction); isInstr && ml.body[ri.Block()] {
+					continue // made inside this iteration
+				}
+				updated[root] = true
+			}
+		}
+	}
+	if len(updated) == 0 {
+		return false, ""
+	}
+	var lookupOf func(v ssa.Value, d int) ssa.Value
+	lookupOf = func(v ssa.Value, d int) ssa.Value {
+		if d > 6 || v == nil {
+			return nil
+		}
+		switch x := v.(type) {
+		case *ssa.Lookup:
+			if r := mapRoot(x, 0); updated[r] {
+				return r
+			}
+		case *ssa.Extract:
+			return lookupOf(x.Tuple, d+1)
+		case *ssa.BinOp:
+			if r := lookupOf(x.X, d+1); r != nil {
+				return r
+			}
+			return lookupOf(x.Y, d+1)
+		case *ssa.UnOp:
+			return lookupOf(x.X, d+1)
+		case *ssa.Call:
+			for _, a := range x.Call.Args {
+				if r := lookupOf(a, d+1); r != nil {
+					return r
+				}
+			}
+		}
+		return nil
+	}
+	for b := range ml.body {
+		for _, ins := range b.Instrs {
+			c, ok := ins.(ssa.CallInstruction)
+			if !ok {
+				continue
+			}
+			g := core.StaticCallee(c)
+			if g == nil || (g.Name() != "AddErrors" && g.Name() != "AddWarnings") {
+				continue
+			}
+			for _, cd := range core.ControlConds(b) {
+				if !ml.body[cd.If.Block()] {
+					continue
+				}
+				if r := lookupOf(cd.Value, 0); r != nil {
+					return true, describe(r)
+				}
+			}
+		}
+	}
+	return false, ""
 }
